@@ -844,7 +844,11 @@ pub fn check(hdr: &str, lines: &[String], trace: &[(String, Vec<String>)], mon: 
                     // processed from idle but not when it is answered inside an unsolicited confirm wait:
                     // whether a later repeat of the request BEFORE it is still a repeat depends on that, so
                     // the monitors let the implementation's behaviour decide (`before_malformed`)
-                    if a.iter().any(|x| x.contains("malformed")) {
+                    // likewise a READ received inside an unsolicited confirm wait is deferred (nothing is
+                    // transmitted for it in this operation) and becomes the last valid request only when it is
+                    // answered, if it ever is: until then a repeat of the request before it is still echoed
+                    let deferred_read = func == Some(1) && !outs.iter().any(|o| o.starts_with("tx "));
+                    if a.iter().any(|x| x.contains("malformed")) || deferred_read {
                         if before_malformed.is_none() {
                             before_malformed = last_processed.clone();
                         }
